@@ -78,6 +78,9 @@ structure Caller where
   crecords : Nat := 0                   -- ghost: RecordPut events of cancel records
   cancels : Nat := 0                    -- ghost: handleCancel invocations
   cfail : Bool := false                 -- ghost: the call ended in compressData, before its frame was encoded: no send, no record
+  encSize : Nat := 0                    -- ghost: what `EncodeAndWrite` returned (frame length, 0 when `encodeFrame` failed)
+  recSize : Nat := 0                    -- ghost: the Size of its call record (as stored, once the record is finished)
+  inc : List Nat := []                  -- ghost: payload ids of the replies whose size was added before the record was finished
 deriving Repr, Inhabited
 
 /-- program counter of `Client.Notify` / `dispatch.Notify` -/
@@ -218,8 +221,15 @@ structure St where
   encClosed : Bool := false
   connClosed : Bool := false
   hist : List Evt := []
+  fsize : Nat → Nat := fun _ => 0       -- read-only: bytes of the frame of send id x
+  psize : Nat → Nat := fun _ => 0       -- read-only: content length of a response frame carrying payload id p
 
 def init : St := {}
+
+/-- the initial state with given size tables (`fsize` / `psize` are parameters of a run: no step modifies them) -/
+def initSz (f p : Nat → Nat) : St := { fsize := f, psize := p }
+
+theorem init_eq_initSz : init = initSz (fun _ => 0) (fun _ => 0) := rfl
 
 /-! ### small helpers -/
 
@@ -364,10 +374,11 @@ def step (s : St) : Act → Option St
     if cl.pc = .enc then
       if fits then
         let (s', x) := newSend s .call cl.seq c s.hasNotifier
-        some (setCaller s' c { cl with pc := .hand x })
+        -- `size` returned by EncodeAndWrite: the length of the encoded frame
+        some (setCaller s' c { cl with pc := .hand x, encSize := s.fsize x })
       else
         let (s', x) := failedSend s .call cl.seq c
-        some (setCaller s' c { cl with pc := .sel1 x })
+        some (setCaller s' c { cl with pc := .sel1 x, encSize := 0 })
     else none
   | .cCompressFail c =>
     -- `compressData(c.ctype, c.arg)` returned an error: `Call` returns it at once.  Only `RemoveCall` is
@@ -457,7 +468,9 @@ def step (s : St) : Act → Option St
   | .cFin c =>
     let cl := s.callers c
     match cl.pc with
-    | .fin o => some (setCaller s c { cl with pc := .rm o, records := cl.records + 1 })
+    | .fin o =>
+      -- RecordAndFinish(ctx, size): IncrementSize(size), then Finish stores a COPY of the record
+      some (setCaller s c { cl with pc := .rm o, records := cl.records + 1, recSize := cl.recSize + cl.encSize })
     | _ => none
   | .cRm c =>
     let cl := s.callers c
@@ -598,7 +611,14 @@ def step (s : St) : Act → Option St
     match s.r with
     | .respLookup seq p ae =>
       match s.pending seq with
-      | some c => some { s with r := .respDecode c seq p ae }
+      | some c =>
+        -- `r.c.instrumenter.IncrementSize(int64(d.totalSize))` right after RetrieveCall: counted in the stored
+        -- record only when the record has not been finished yet (Finish stored a copy)
+        let cl := s.callers c
+        if cl.records = 0 then
+          some { (setCaller s c { cl with recSize := cl.recSize + s.psize p, inc := cl.inc ++ [p] }) with
+                  r := .respDecode c seq p ae }
+        else some { s with r := .respDecode c seq p ae }
       | none => some { s with r := .reading }      -- call not found: ignored
     | _ => none
   | .rDecode =>
@@ -765,7 +785,9 @@ def run (s : St) : List Act → Option St
 /-- every state the endpoint can be in, whatever the user, the peer and the
     scheduler do -/
 inductive Reachable : St → Prop where
-  | init : Reachable init
+  | init (f p : Nat → Nat) : Reachable (initSz f p)
   | step (s s' : St) (a : Act) (h : Reachable s) (hs : step s a = some s') : Reachable s'
+
+theorem reachable_init : Reachable init := Reachable.init (fun _ => 0) (fun _ => 0)
 
 end FmpRpc.T
